@@ -2,6 +2,7 @@
 package c05
 
 import (
+	"encoding/base64"
 	"errors"
 	"flag"
 	"fmt"
@@ -65,7 +66,7 @@ func genCase(t *rapid.T) Case {
 	c := Case{Entry: rapid.SampledFrom([]string{"xterm", "xterm-256color", "xterm-kitty", "alacritty", "konsole"}).Draw(t, "entry")}
 	n := rapid.OneOf(rapid.IntRange(0, 30), rapid.IntRange(20, 120)).Draw(t, "ntok")
 	for i := 0; i < n; i++ {
-		k := rapid.SampledFrom([]string{"rune", "rune", "rune", "rune", "mouse", "mouse", "paste-start", "paste-end", "focus-in", "focus-out", "key"}).Draw(t, "tok")
+		k := rapid.SampledFrom([]string{"rune", "rune", "rune", "rune", "mouse", "mouse", "paste-start", "paste-end", "focus-in", "focus-out", "key", "clip-ok", "clip-bad"}).Draw(t, "tok")
 		c.Toks = append(c.Toks, Tok{Kind: k})
 	}
 	for i := 1; i <= n; i++ {
@@ -115,6 +116,15 @@ func build(toks []Tok) ([][]byte, []inref.Ev) {
 			x, y := i%100, i/100
 			bs = append(bs, []byte(fmt.Sprintf("\x1b[<0;%d;%dM", x+1, y+1)))
 			want = append(want, inref.Ev{Kind: "mouse", X: x, Y: y, Btn: int(tcell.Button1)})
+		case "clip-ok":
+			// an OSC 52 reply carrying the token's index
+			data := fmt.Sprintf("clip%04d", i)
+			bs = append(bs, []byte("\x1b]52;c;"+base64.StdEncoding.EncodeToString([]byte(data))+"\x07"))
+			want = append(want, inref.Ev{Kind: "clipboard", Data: data})
+		case "clip-bad":
+			// a reply whose payload is base64 characters but not valid base64:
+			// recognised and dropped - it yields no event at all
+			bs = append(bs, []byte([]string{"\x1b]52;c;QUJ\x07", "\x1b]52;c;=QUJ\x07", "\x1b]52;c;QQ=Q\x07"}[i%3]))
 		case "paste-start":
 			bs = append(bs, []byte("\x1b[200~"))
 			want = append(want, inref.Ev{Kind: "paste", Start: true})
